@@ -3,7 +3,7 @@ CONSTANTS
   Crcs <- Crcs2
   CrcSeq <- CrcSeq2
   LogTables <- LogQuick
-  ParamTables <- ParQuick
+  ParamTables <- ParQ1
   FLen = 2
   Alias <- AliasBeef
   Bug = "none"
